@@ -120,6 +120,37 @@ def list_leg(ck):
         scs.append({'argv': ['-j', '--skip-rate-test', '--threads', str(threads), '-T', '{tmp}/targets.txt'], 'servers': servers, 'resolver': resolver,
                     'files': {'targets.txt': '\n'.join(lines) + '\n'}})
         meta.append((n, threads, want))
+    # a listed target that cannot be reached (nothing listens there / the name has no address), first and in the middle: every other
+    # listed target is still dialled and reported under its own label (text mode: the error text of the failed one would break a JSON array)
+    down_scs = []
+    for (n, threads, want), sc in list(zip(meta, scs))[:4]:
+        for where in (0, 1):
+            for kind in ('refused', 'unresolvable'):
+                lines = sc['files']['targets.txt'].split('\n')
+                lines.insert(where, 'down.example:2299' if kind == 'refused' else 'nowhere.invalid')
+                t = dict(sc, argv=['-n'] + [a for a in sc['argv'] if a != '-j'], files={'targets.txt': '\n'.join(lines)},
+                         resolver=dict(sc['resolver'], **({'down.example': [(socket.AF_INET, '192.0.2.250')]} if kind == 'refused' else {})))
+                down_scs.append((t, want, threads, where, kind))
+    for (t, want, threads, where, kind), r in zip(down_scs, runner.run_many([x[0] for x in down_scs])):
+        ck.evaluated()
+        replay = {'argv': t['argv'], 'lines': t['files']['targets.txt'], 'exit': r.get('exit'), 'stdout': (r.get('stdout') or '')[-2500:]}
+        if r.get('harness_error'):
+            raise common.Machinery('target-list run failed: %r' % r.get('harness_error'))
+        if r.get('hang'):
+            ck.violation('target-list-never-ends with=%s' % kind, 'a target list holding a line that cannot be reached never ends', replay)
+            continue
+        out_lines = r['stdout'].split('\n')
+        counts = {lab: sum(1 for l in out_lines if l in ('(gen) target: %s' % lab, '(gen) target: %s' % (lab[:-3] if lab.endswith(':22') else lab))) for lab in want}
+        dialled = {'%s:%d' % (e['host'], e['port']) for e in r['events'] if e.get('ev') == 'connect' and 'host' in e}
+        missing = sorted(v[0] for v in want.values() if v[0] not in dialled)
+        if missing:
+            ck.violation('listed-target-not-dialled with=%s' % kind, 'a line that cannot be reached (%s, position %d of the file): the listed targets at %r are never dialled' % (kind, where + 1, missing), replay)
+        elif any(v != 1 for v in counts.values()):
+            ck.violation('listed-target-not-reported with=%s' % kind, 'a line that cannot be reached (%s, position %d of the file), %d thread(s): target labels shown %r (each reachable target must be reported once)'
+                         % (kind, where + 1, threads, counts), replay)
+        else:
+            ck.cov['traces_validated_against_impl'] += 1
+            ck.nontrivial(('list-down', len(want), threads, where, kind))
     # the same lists in text mode at every minimum level: each result block still says which target it is about
     tscs = []
     for (n, threads, want), sc in list(zip(meta, scs))[:3]:
@@ -191,7 +222,7 @@ def run(tier):
         variants = [dict()]
         if not e['rejected'] and not e['skipped'] and len(e['order']) > 1 and c['id'] % 3 == 0:
             variants.append(dict(refuse_first=True))
-        if not e['rejected'] and not e['skipped'] and c['id'] % 11 == 0:
+        if not e['rejected'] and not e['skipped'] and (c['id'] % 11 == 0 or (c['id'] % 3 == 1 and e['port'] != 22)):
             variants.append(dict(rate=True))
         if c['id'] % 5 == 0:
             variants.append(dict(json_out=True))
